@@ -14,3 +14,12 @@ reg("C38", "exploration", "E1",
     "syntax and every line order, through the real parser and lookup; every query path incl. string-prefix siblings; "
     "compared with a component-prefix reference. Complete within the bound, so any prefix confusion inside it is found.",
     "Reference lookup written from the statement; parser's documented 'only cifs-related mounts' collapse accepted.")
+
+reg("C37", "model_checking", "E2",
+    "explicit-state BFS over operation histories of the real DiGraph to a fixed point",
+    "Breadth-first search over every history of construct/add_nodes/add_edges/remove_nodes/remove_nodes_connections/"
+    "remove_successors_nodes/sorted_nodes/copy on universes of 3 and 4 (thorough: 5) node names, each search run to its "
+    "fixed point (all reachable canonical states); the topological-order invariant and termination (5 s alarm) are "
+    "checked after every transition, each transition being the real method on a copy of the real object.",
+    "Canonical state keeps node-list order, sorted list and successor-list order; drops names and the order of lists used "
+    "only through membership. Removal protocol as documented in DiGraph.remove_nodes.")
